@@ -3909,6 +3909,11 @@ Octagonal_Shape<T>
                                      coeff, term)) {
       continue;
     }
+    // Constraints without variables constrain no cell
+    // (`i', `j', `coeff' and `term' are not set for them).
+    if (num_vars == 0) {
+      continue;
+    }
 
     typedef typename OR_Matrix<N>::const_row_iterator Row_iterator;
     typedef typename OR_Matrix<N>::const_row_reference_type Row_reference;
